@@ -60,6 +60,17 @@ func genC04(rng *rand.Rand, tier string) *core.Plan {
 		default:
 			p.Ops = append(p.Ops, core.Op{K: "reopen"})
 		}
+		if rng.Intn(12) == 0 {
+			// a rollup that dies between its two commits, more data for the same source family, the rollup again
+			f2 := core.Op{K: "flush", T: fam, A: int64(1 + rng.Intn(2)), B: int64(1 + rng.Intn(4)), C: int64(rng.Intn(4)), S: fmt.Sprint(rng.Intn(1 << 30))}
+			p.Ops = append(p.Ops, f2, core.Op{K: "rollup_cw"})
+			if rng.Intn(2) == 0 {
+				f3 := f2
+				f3.S = fmt.Sprint(rng.Intn(1 << 30))
+				p.Ops = append(p.Ops, f3)
+			}
+			p.Ops = append(p.Ops, core.Op{K: "rollup"})
+		}
 	}
 	p.Ops = append(p.Ops, core.Op{K: "rollup"}, core.Op{K: "reopen"}, core.Op{K: "rollup"})
 	p.Cfg["maporder"] = rng.Intn(2) // tape-chosen iteration order of Go maps in the code under test
@@ -85,6 +96,8 @@ type c04 struct {
 	dead     bool
 	armed    bool
 	crashP   float64
+	skipSettle bool
+	window   int // rollup_cw: 1 = waiting for a target commit, 2 = die at the next operation on the source store
 }
 
 func (h *c04) dayStart() int64 { return jan1 + int64(h.day-1)*dayMs }
@@ -250,6 +263,23 @@ func runC04(c *core.RunCtx) {
 		if !h.armed || h.dead || sim.CurInc() != h.inc {
 			return
 		}
+		if h.window > 0 {
+			// the process dies between the commit in a target family and the commit in the source family: at the
+			// first operation on the source store after a target store's manifest was synced
+			inSrc := strings.HasPrefix(path, h.srcName+"/") || path == h.srcName
+			switch {
+			case h.window == 1 && !inSrc && op == "sync" && strings.Contains(path, "MANIFEST"):
+				h.window = 2
+			case h.window == 2 && inSrc:
+				h.window = 0
+				h.skipSettle = true // the plan goes on with more data for that family and the rollup again
+				h.dead = true
+				sim.Fault("crash-between-target-and-source-commit")
+				sim.Event("crash before %s %s", op, strings.TrimPrefix(path, c.Dir))
+				sim.Kill(h.inc)
+			}
+			return
+		}
 		if sim.Tape.Chance(h.crashP) {
 			h.dead = true
 			sim.Fault("crash@" + op)
@@ -278,7 +308,9 @@ func runC04(c *core.RunCtx) {
 				c.Violate("C04/reopen-failed", "opening the stores failed: %v", err)
 				return
 			}
-			if incarnation > 0 {
+			if incarnation > 0 && h.skipSettle {
+				h.skipSettle = false
+			} else if incarnation > 0 {
 				// after a process death: finish whatever rollup is still registered, then judge
 				h.src.ForceRollup()
 				h.awaitIdle()
@@ -307,6 +339,11 @@ func runC04(c *core.RunCtx) {
 						h.models[t.interval].addFile(fc, func(_ uint32, s uint16) int { return int((famStart + int64(s)*srcInterval) / tt.interval) })
 					}
 					continue // nothing to judge until a rollup ran
+				case "rollup_cw":
+					h.armed, h.window = true, 1
+					h.src.ForceRollup()
+					h.awaitIdle()
+					h.armed, h.window = false, 0
 				case "rollup", "rollup2":
 					h.armed = h.crashP > 0
 					h.src.ForceRollup()
